@@ -21,6 +21,11 @@ def zl(xs):
     return "[" + ";".join(str(int(x)) for x in xs) + "]"
 
 
+def zs(v):
+    """signed integer as a Coq Z term"""
+    return "(%d)" % v if v < 0 else "%d" % v
+
+
 def bl(hexs):
     """byte string -> Coq term of type list Z (long strings are shipped as 64-bit words)"""
     b = bytes.fromhex(hexs or "")
@@ -108,6 +113,13 @@ def case_term(c):
         if not c.get("segs"):
             return None
         return col_term(c)
+    if k == "mfile":
+        mf = c.get("mf") or {}
+        if c.get("oracle") or not mf.get("blocks"):
+            return None
+        rg = lambda a, b: "(%s, %s)" % (zs(a), zs(b))
+        return "(check_ranges [%s] %s [%s])" % (";".join(rg(a, b) for a, b in mf["chunks"]), rg(*mf["trailer"]),
+                                               ";".join("(%d, %s)" % (n, rg(a, b)) for n, a, b in mf["blocks"]))
     if k == "preagg":
         pa = c["pa"]
         if any(m.get("got") is None for m in pa["modes"]) or len(pa["modes"]) == 0:
@@ -409,6 +421,8 @@ def nontrivial(c):
         return len(c.get("series", [])) > 0
     if c["k"] == "rows":
         return c.get("npref", 0) > 10
+    if c["k"] == "mfile":       # more than one series and at least one row lookup through the reopened file
+        return len(c.get("series", [])) > 1 and (c.get("mf") or {}).get("nlook", 0) > 0
     if c["k"] == "preagg":      # the variable-length form is within one byte of a length the reader dispatches on
         return c["pa"].get("vlen", 0) in (15, 16, 17, 47, 48, 49) or c["pa"]["f"][5] == 1
     if c["k"] == "frame":
@@ -512,6 +526,8 @@ def slim(c):
     d = {k: v for k, v in c.items() if k not in ("hex", "c", "d", "dv", "segs", "recj", "rowsj", "cm")}
     if c.get("pa"):
         d["pa"] = c["pa"]
+    if c.get("mf"):
+        d["mf"] = c["mf"]
     if len(c.get("hex", "")) <= 400:
         d["hex"] = c.get("hex", "")
     return d
@@ -622,7 +638,7 @@ def main(ck):
         rp = json.load(open(ck.replay))
         cf = os.path.join(ck.work, "replay.case")
         open(cf, "w").write(json.dumps({k: v for k, v in rp.get("case", {}).items()
-                                        if k in ("k", "vals", "strs", "algo", "typ", "payload", "lim", "cols", "seed", "series", "rep", "cmode", "pa")}) + "\n")
+                                        if k in ("k", "vals", "strs", "algo", "typ", "payload", "lim", "cols", "seed", "series", "rep", "cmode", "pa", "mf")}) + "\n")
         n, extra = 0, [cf]
     cases, err = run_harness(ck, binp, n, extra)
     if err:
